@@ -132,6 +132,19 @@ namespace pika::detail {
         {
             old_state = expected;
 
+            // A request_stop may have run to completion in the meantime (stop requested, lock
+            // released again); registering the callback now would leave it in a list that has
+            // already been drained.
+            if (stop_requested(old_state))
+            {
+                cb->execute();
+
+                cb->callback_finished_executing_.store(true, std::memory_order_release);
+
+                return false;
+            }
+            else if (!stop_possible(old_state)) { return false; }
+
             for (std::size_t k = 0; is_locked(old_state); ++k)
             {
                 pika::execution::this_thread::detail::yield_k(k, "stop_state::add_callback");
